@@ -198,6 +198,13 @@ func (x *xpoaConsensus) CheckMinerMatch(ctx xcontext.XContext, block cctx.BlockI
 	conStoreBytes, _ := block.GetConsensusStorage()
 	// 验证矿工身份
 	proposer := x.election.GetLocalLeader(block.GetTimestamp(), block.GetHeight(), conStoreBytes)
+	if proposer == "" {
+		// the validator set or the slot could not be resolved: nobody is
+		// entitled, in particular not a block without proposer
+		ctx.GetLog().Warn("Xpoa::CheckMinerMatch::no proposer can be calculated", "logid", ctx.GetLog().GetLogId(),
+			"blockId", utils.F(block.GetBlockid()))
+		return false, MinerSelectErr
+	}
 	if proposer != string(block.GetProposer()) {
 		ctx.GetLog().Warn("Xpoa::CheckMinerMatch::calculate proposer error", "logid", ctx.GetLog().GetLogId(), "want", proposer,
 			"have", string(block.GetProposer()), "blockId", utils.F(block.GetBlockid()))
